@@ -158,12 +158,24 @@ def effects_under(fn, stmts, val, env=None, keep=(), loops='stop', nm=None):
 
     nm0 = Norm(fn, env=env or {}, keep=keep)          # targets of assignments are shown without the valuation
 
+    def lhs_of(node):
+        """assignment target; a local reference (`T& r = c ? a : b;`) stands for what it was bound to under the valuation"""
+        t = node
+        while t is not None and t['k'] in ('ImplicitCastExpr', 'ParenExpr') and kids(t):
+            t = kids(t)[-1]
+        r = (t.get('ref') or {}) if t is not None else {}
+        if r.get('k') == 'Local':
+            d = [x for x in fn.all_nodes() if x['k'] == 'VarDecl' and x.get('id') == r['id']]
+            if d and (d[0].get('t') or '').endswith('&') and kids(d[0]):
+                return nm.s(kids(d[0])[0])
+        return nm0.s(node)
+
     def show(st):
         e = st
         while e is not None and e['k'] in ('ExprWithCleanups', 'ImplicitCastExpr', 'ParenExpr') and kids(e):
             e = kids(e)[-1]
         if e['k'] in ('BinaryOperator', 'CompoundAssignOperator') and (e.get('op') == '=' or e['k'] == 'CompoundAssignOperator'):
-            lhs = nm0.s(kids(e)[0])
+            lhs = lhs_of(kids(e)[0])
             if e.get('op') == '=':
                 # x = x op y is shown like x op= y
                 r = nm0.resolve(kids(e)[1])
